@@ -59,9 +59,18 @@ func signCase(t *rapid.T, maxMsg int) (tuple, []string) {
 	if rapid.IntRange(0, 4).Draw(t, "shortreads") == 0 {
 		rd.Chunk = rapid.IntRange(1, 17).Draw(t, "chunk")
 	}
+	// the caller's view: identity and message are two slices of ONE received buffer (identity first, message right behind
+	// it), so the identity has spare capacity with live data in it; a third of the cases
+	callUID, callMsg := uid.UID, msg
+	var whole, wholeCopy []byte
+	if len(uid.UID) > 0 && rapid.IntRange(0, 2).Draw(t, "onebuffer") == 0 {
+		whole = append(append(append([]byte{}, uid.UID...), msg...), 0xC3, 0xC3, 0xC3, 0xC3)
+		wholeCopy = append([]byte{}, whole...)
+		callUID, callMsg = whole[:len(uid.UID)], whole[len(uid.UID):len(uid.UID)+len(msg)]
+	}
 	var r, s *big.Int
 	var err error
-	if p := hx.Try(func() { r, s, err = sm2.Sm2Sign(priv, msg, uid.UID, rd) }); p != nil {
+	if p := hx.Try(func() { r, s, err = sm2.Sm2Sign(priv, callMsg, callUID, rd) }); p != nil {
 		if _, spin := p.Val.(sm2x.Spin); spin {
 			t.Fatalf("Sm2Sign did not terminate within 64 nonce draws")
 		}
@@ -72,6 +81,23 @@ func signCase(t *rapid.T, maxMsg int) (tuple, []string) {
 	}
 	if w := sm2x.Intact(priv, key); w != "" {
 		t.Fatalf("Sm2Sign modified the caller's key object (%s)", w)
+	}
+	if whole != nil {
+		if !bytes.Equal(whole, wholeCopy) {
+			t.Fatalf("Sm2Sign wrote into the caller's buffer behind the user ID (ID and message are slices of one buffer): now %x, was %x", whole, wholeCopy)
+		}
+		// ... and verification through the same view must accept what was just signed, leaving the buffer alone
+		var vok bool
+		if p := hx.Try(func() { vok = sm2.Sm2Verify(sm2x.Pub(key.Pub), callMsg, callUID, r, s) }); p != nil {
+			t.Fatalf("Sm2Verify panicked: %v", p.Val)
+		}
+		if !bytes.Equal(whole, wholeCopy) {
+			t.Fatalf("Sm2Verify wrote into the caller's buffer behind the user ID")
+		}
+		if !vok {
+			t.Fatalf("Sm2Verify rejects the signature just made when ID and message are slices of one buffer")
+		}
+		R.Class("uid_and_msg_in_one_buffer")
 	}
 	k := sm2x.NonceFromBlock(block)
 	e, _ := cv.E(key.Pub, orDefault(uid.UID), msg)
